@@ -12,7 +12,6 @@ use s3s::{S3Request, S3Response};
 
 use std::collections::VecDeque;
 use std::io;
-use std::ops::Neg;
 use std::ops::Not;
 use std::path::Component;
 use std::path::{Path, PathBuf};
@@ -22,7 +21,6 @@ use tokio::io::AsyncSeekExt;
 use tokio_util::io::ReaderStream;
 
 use futures::TryStreamExt;
-use numeric_cast::NumericCast;
 use stdx::default::default;
 use tracing::debug;
 use uuid::Uuid;
@@ -207,27 +205,21 @@ impl S3 for FileSystem {
         let last_modified = Timestamp::from(try_!(file_metadata.modified()));
         let file_len = file_metadata.len();
 
-        let (content_length, content_range) = match input.range {
-            None => (file_len, None),
+        let (content_length, content_range, start) = match input.range {
+            None => (file_len, None, 0),
             Some(range) => {
                 let file_range = range.check(file_len)?;
                 let content_length = file_range.end - file_range.start;
                 let content_range = fmt_content_range(file_range.start, file_range.end - 1, file_len);
-                (content_length, Some(content_range))
+                (content_length, Some(content_range), file_range.start)
             }
         };
         let content_length_usize = try_!(usize::try_from(content_length));
         let content_length_i64 = try_!(i64::try_from(content_length));
 
-        match input.range {
-            Some(Range::Int { first, .. }) => {
-                try_!(file.seek(io::SeekFrom::Start(first)).await);
-            }
-            Some(Range::Suffix { length }) => {
-                let neg_offset = length.numeric_cast::<i64>().neg();
-                try_!(file.seek(io::SeekFrom::End(neg_offset)).await);
-            }
-            None => {}
+        // the read starts where the checked range starts: a suffix longer than the object is the whole object
+        if start > 0 {
+            try_!(file.seek(io::SeekFrom::Start(start)).await);
         }
 
         let body = bytes_stream(ReaderStream::with_capacity(file, 4096), content_length_usize);
